@@ -136,12 +136,19 @@ def valKeyLt (a b : String) : Bool :=
   let kb := k b
   ka.1 < kb.1 || (ka.1 == kb.1 && ka.2 < kb.2)
 
+def tenantLine (t : Tenant) : String :=
+  let contract := if t.contract.isEmpty then "-" else if t.contract == "auto".toList then "auto" else String.ofList (normalizeHex t.contract)
+  toString t.id ++ " admins=" ++ joinOrDash (t.admins.map acctName) ++ " denom=" ++ encStr t.denom ++ " period=" ++ toString t.period ++
+    " method=" ++ (if t.mint then "mintable_contract" else "native") ++ " contract=" ++ contract
+
+def roundLine : Option RoundInfo → String
+  | none => "R none"
+  | some ri => "R id=" ++ toString ri.id ++ " pe=" ++ toString ri.prevoteEnd ++ " ve=" ++ toString ri.voteEnd ++ " src=" ++
+      joinOrDash (ri.sources.map (fun x => "1:" ++ encStr x))
+
 def dumpModules (s : State) : List String :=
   let sp := "SP fee=" ++ toString s.st.params.oracleFee ++ " chains=" ++ joinOrDash (s.st.params.chains.map encStr)
-  let ts := s.st.tenants.map (fun t =>
-    let contract := if t.contract.isEmpty then "-" else if t.contract == "auto".toList then "auto" else String.ofList (normalizeHex t.contract)
-    "T " ++ toString t.id ++ " admins=" ++ joinOrDash (t.admins.map acctName) ++ " denom=" ++ encStr t.denom ++ " period=" ++ toString t.period ++
-      " method=" ++ (if t.mint then "mintable_contract" else "native") ++ " contract=" ++ contract)
+  let ts := s.st.tenants.map (fun t => "T " ++ tenantLine t)
   let us := (allRecs s.st).map (fun p =>
     "U " ++ toString p.1 ++ " " ++ toString p.2.id ++ " req=" ++ encStr p.2.req ++ " amt=" ++ toString p.2.amount ++ " denom=" ++ encStr p.2.denom ++
       " nft=" ++ nftStr p.2.nft ++ " created=" ++ toString p.2.created ++ " rcpt=" ++ rcptStr p.2.rcpt)
@@ -150,10 +157,7 @@ def dumpModules (s : State) : List String :=
   let ls := s.st.recTenants.filterMap (fun t => (s.st.last t).map (fun l => "L " ++ toString t ++ " " ++ toString l))
   let op := "OP period=" ++ toString s.os.params.votePeriod ++ " thr=" ++ toString s.os.params.threshold ++ " frac=" ++ toString s.os.params.slashFraction ++
     " window=" ++ toString s.os.params.slashWindow ++ " max=" ++ toString s.os.params.maxMiss
-  let r := match s.os.round with
-    | none => "R none"
-    | some ri => "R id=" ++ toString ri.id ++ " pe=" ++ toString ri.prevoteEnd ++ " ve=" ++ toString ri.voteEnd ++ " src=" ++
-        joinOrDash (ri.sources.map (fun x => "1:" ++ encStr x))
+  let r := roundLine s.os.round
   let ps := (sortBy (fun a b => valKeyLt a.1 b.1) s.os.prevotes).map (fun p => "P " ++ p.1 ++ " " ++ encStr p.2)
   let vs := (sortBy (fun a b => valKeyLt a.1 b.1) s.os.votes).map (fun p => "V " ++ p.1 ++ " " ++ encVD p.2)
   let ms := (sortBy (fun a b => valKeyLt a.1 b.1) s.os.miss).map (fun p => "M " ++ p.1 ++ " " ++ toString p.2)
@@ -180,6 +184,57 @@ def dumpBalances (s : State) (seen : List Str) : List String :=
     | none => [])
   let cs := sortedDenoms.filterMap (fun d => if s.distr.community d = 0 then none else some ("C " ++ encStr d ++ " " ++ toString (s.distr.community d)))
   bs ++ ss ++ cs
+
+/-! ### the query layer -/
+
+def namedMax : Nat := 8
+
+/-- the (tenant token, request-id token) pairs the history has named, latest last, at most `namedMax` -/
+def noteNamed (named : List (String × String)) (l : String) : List (String × String) :=
+  let f := (l.splitOn " ").filter (· != "")
+  let g (i : Nat) : String := f.getD i ""
+  let k : Option (String × String) := match g 0 with
+    | "record" => if f.length < 4 then none else some (g 2, g 3)
+    | "cancel" => if f.length < 4 then none else some (g 2, g 3)
+    | "inject" => if f.length < 3 then none else some (g 1, g 2)
+    | _ => none
+  match k with
+  | none => named
+  | some k =>
+    let n := (named.filter (· != k)) ++ [k]
+    n.drop (n.length - namedMax)
+
+def viewLine (v : TenantView) : String :=
+  tenantLine v.tenant ++ " treasury=" ++ (match v.balance with | some b => toString b | none => "-") ++ " addr=ok"
+
+def dumpQueries (s : State) (named : List (String × String)) : List String :=
+  let maxId := (s.st.tenants.map (·.id)).foldl max 0
+  let ids := List.range (maxId + 2)
+  let extras := sortBy strLt ((s.st.tenants.filter (·.mint)).map mintDenom).eraseDups
+  let denoms := trackedDenoms ++ extras
+  ["QSP fee=" ++ toString s.st.params.oracleFee ++ " chains=" ++ joinOrDash (s.st.params.chains.map encStr)] ++
+  (qTenants s).map (fun v => "QT " ++ viewLine v) ++
+  ids.map (fun id => match qTenant s id with
+    | some v => "Qt " ++ viewLine v
+    | none => "Qt " ++ toString id ++ " notfound") ++
+  ids.map (fun id => match qUtxrs s id with
+    | some rs => "QU " ++ toString id ++ " " ++ joinOrDash (rs.map (fun r => encStr r.req ++ "*" ++ toString r.amount))
+    | none => "QU " ++ toString id ++ " err") ++
+  named.map (fun k => match lookup s.st (natTok k.1) (strTok k.2) with
+    | some r => "Qu " ++ k.1 ++ " " ++ k.2 ++ " req=" ++ encStr r.req ++ " amt=" ++ toString r.amount ++ " denom=" ++ encStr r.denom ++
+        " nft=" ++ nftStr r.nft ++ " created=" ++ toString r.created ++ " rcpt=" ++ rcptStr r.rcpt
+    | none => "Qu " ++ k.1 ++ " " ++ k.2 ++ " notfound") ++
+  ["QOP period=" ++ toString s.os.params.votePeriod ++ " thr=" ++ toString s.os.params.threshold ++ " frac=" ++ toString s.os.params.slashFraction ++
+    " window=" ++ toString s.os.params.slashWindow ++ " max=" ++ toString s.os.params.maxMiss,
+   "Q" ++ roundLine s.os.round] ++
+  (sortBy (fun a b => valKeyLt a.1 b.1) s.os.prevotes).map (fun p => "QP " ++ p.1 ++ " " ++ encStr p.2) ++
+  (sortBy (fun a b => valKeyLt a.1 b.1) s.os.votes).map (fun p => "QV " ++ p.1 ++ " " ++ encVD p.2) ++
+  (List.range s.vals.length).flatMap (fun i => ["v" ++ toString i, "V" ++ toString i].map (fun name =>
+    "Qv " ++ name ++ " p=" ++ (match qPrevote s name with | some h => encStr h | none => "-") ++
+      " v=" ++ (match qVote s name with | some vd => encVD vd | none => "-") ++
+      " m=" ++ toString (qMiss s name) ++
+      " f=" ++ (match qFeeder s name with | some a => acctName a | none => "err"))) ++
+  ["QRP " ++ joinOrDash (denoms.filterMap (fun d => if qRewardPool s d = 0 then none else some (encStr d ++ "*" ++ toString (qRewardPool s d))))]
 
 def dumpChain (s : State) (seen : List Str) : List String :=
   ["H " ++ toString s.h ++ " pr=" ++ toString s.powerReduction ++ " cr=" ++ (if s.constantPower then "1" else "0")] ++ dumpModules s ++ dumpBalances s seen
@@ -214,37 +269,38 @@ def resultLine (op : Op) (hBefore : Nat) (r : StepRes) : String :=
 
 def sha (s : Str) : Str := Sha256.hashHexUpper s
 
-partial def chainLoop (stdin : IO.FS.Stream) (s : State) (seen : List Str) : IO Unit := do
+partial def chainLoop (stdin : IO.FS.Stream) (s : State) (seen : List Str) (named : List (String × String)) : IO Unit := do
   let line ← stdin.getLine
   if line.isEmpty then return ()
   let l := line.trimAscii.toString
-  if l.isEmpty || l.startsWith "#" then chainLoop stdin s seen
+  if l.isEmpty || l.startsWith "#" then chainLoop stdin s seen named
   else if l == "genesis" then
     IO.println ("> " ++ l)
     -- export, import into empty module stores at the current height, export again
     match importG s (jsonG (exportG s)) with
     | none =>
       IO.println "< panic"
-      chainLoop stdin s seen
+      chainLoop stdin s seen named
     | some s2 =>
       let same := dumpGenesis (exportG s2) == dumpGenesis (exportG s)
       IO.println ("< ok " ++ (if same then "same" else "differs"))
       for d in dumpModules s2 do
         IO.println ("| " ++ d)
-      chainLoop stdin s seen
+      chainLoop stdin s seen named
   else
     IO.println ("> " ++ l)
     match parseOp l with
     | none =>
       IO.println "< bad-op"
-      chainLoop stdin s seen
+      chainLoop stdin s seen named
     | some op =>
       let r := step sha s op
       IO.println ("< " ++ resultLine op s.h r)
       let seen' := updateSeen seen r.st
-      for d in dumpChain r.st seen' do
+      let named' := noteNamed named l
+      for d in dumpChain r.st seen' ++ dumpQueries r.st named' do
         IO.println ("| " ++ d)
-      chainLoop stdin r.st seen'
+      chainLoop stdin r.st seen' named'
 
 /-! ### pure mode -/
 
@@ -457,9 +513,9 @@ def main (args : List String) : IO Unit := do
   match args with
   | ["chain", pr, cr] =>
     let s := initState (natTok pr) (cr == "1")
-    for d in dumpChain s [] do
+    for d in dumpChain s [] ++ dumpQueries s [] do
       IO.println ("| " ++ d)
-    chainLoop stdin s []
+    chainLoop stdin s [] []
   | ["pure"] => pureLoop stdin { cap := 0, items := [] }
   | ["ante"] =>
     let a := anteInit 1000000 true
